@@ -465,15 +465,15 @@ NO_ACTION = ["x.txt", "a.B.JSON", ".", "-/x.csv"]
 def gen_cases(ctx, quick):
     rng = ctx.rng
     ncfg = len(EP.cache_configs("/nonexistent"))
-    general = [("general", H.g_query(rng, 2, special=0.2)) for _ in range(500 if quick else 4000)]
+    general = [("general", H.g_query(rng, 2, special=0.2)) for _ in range(500 if quick else 9000)]
     fn_all = gen_filename_queries(rng, None)
-    attrs = gen_attr_chains(rng, 150 if quick else 1200)
-    links = gen_links_subs(rng, 150 if quick else 1200)
-    failing = gen_failing(ctx, 150 if quick else 1200)
+    attrs = gen_attr_chains(rng, 150 if quick else 3000)
+    links = gen_links_subs(rng, 150 if quick else 3000)
+    failing = gen_failing(ctx, 150 if quick else 3000)
     pool = general + fn_all + attrs + links + failing + [("no-action", q) for q in NO_ACTION]
     tasks = [("nocache", None, q, {}, fam) for fam, q in pool]
     # every cache configuration: a slice of every family
-    per = 36 if quick else 220
+    per = 36 if quick else 480
     for ci in range(ncfg):
         fam_pick = (rng.sample(general, per // 4) + rng.sample(fn_all, per // 4) + rng.sample(attrs, per // 6) + rng.sample(links, per // 6) +
                     rng.sample(failing, per // 6))
@@ -482,7 +482,7 @@ def gen_cases(ctx, quick):
     for i, (fam, q) in enumerate(fn_all if not quick else fn_all[::3]):
         tasks.append(("cache", i % ncfg, q, {}, fam))
     for skind in ("mem", "file"):
-        n = 110 if quick else 700
+        n = 110 if quick else 1500
         pick = rng.sample(fn_all, min(len(fn_all), n // 2)) + rng.sample(general, n // 6) + rng.sample(links, n // 6) + rng.sample(failing, n // 6) + [("no-action", "x.txt")]
         tasks += [("store", skind, q, {}, fam) for fam, q in pick]
     return tasks
